@@ -286,6 +286,21 @@ def run(check):
                for x in ast.walk(d_.ast)):
           return True
       return False
+    # the stamp recorded by mark_inactive is the flush's wall-clock interval, the same clock the expiry threshold is derived from
+    from ..paths import mentions
+    vn_cv2 = ValueNumbers(cx, cv)
+    for mk in marks:
+      for c in g.calls(mk):
+        if isinstance(c.func, ast.Attribute) and c.func.attr == 'mark_inactive' and c.args:
+          t_ = vn_cv2.term(c.args[0], mk)
+          clocked = mentions(t_, lambda x: isinstance(x, tuple) and x[0] == 'call' and x[1] in ('time.time', 'time'))
+          of_buffer = mentions(t_, lambda x: isinstance(x, tuple) and x[0] == 'attr' and x[-1] in ('interval', 'inactive_since', 'values'))
+          if clocked and not of_buffer:
+            r_r.ok('mark_inactive(<interval of the flush, from time.time()>)', cv.loc(c))
+          else:
+            r_r.violate('inactive stamp is not the time of the flush', cv, c, '`%s` stamps the buffer with `%s`, which is not the '
+                        'current (wall-clock) interval: the expiry test compares the stamp with a threshold derived from time.time(), '
+                        'so buffers for old or future timestamps are expired at once or never' % (short(c), unparse(c.args[0])))
     for e in emits:
       if e in g.reach([g.entry], removed_edge=active, normal_only=True) and guarded_worklist(e):
         r_r.ok('emission for the buffers collected under `inactive_since is None`', cv.loc(e.ast))
@@ -662,36 +677,47 @@ def run(check):
     gam = repo.cls('carbon.aggregator.rules', 'AggregationRule').methods.get('get_aggregate_metric')
     if gam is not None:
       rule_match_anchored(check, cx, r_x)
-      # per-rule cache keyed by the whole path, storing the computed result
-      g = cx.cfg(gam)
-      stores = [n for n in g.nodes if n.kind == 'stmt' and isinstance(n.ast, ast.Assign) and any(
-        isinstance(tg, ast.Subscript) and dotted(tg.value) == 'self.cache' for tg in n.ast.targets)]
-      rets = [n for n in g.nodes if n.kind == 'stmt' and isinstance(n.ast, ast.Return)]
-      def _key_store(s_):
-        for tg in s_.ast.targets:
-          if isinstance(tg, ast.Subscript) and dotted(tg.value) == 'self.cache':
-            return tg
-        return None
-      # self.cache[<whole path>] = <result> [= ...]; the result stored is the result returned
-      okc = bool(stores) and all(unparse(_key_store(s_).slice) == gam.params[1] for s_ in stores)
-      if okc:
-        vn_g = ValueNumbers(cx, gam)
-        stored = {vn_g.term(s_.ast.value, s_) for s_ in stores} | {
-          vn_g.term(tg, s_) for s_ in stores for tg in s_.ast.targets if isinstance(tg, ast.Name)}
-        final = [r for r in rets if r.ast.value is not None and (
-          vn_g.term(r.ast.value, r) in stored or
-          (isinstance(r.ast.value, ast.Name) and any(isinstance(tg, ast.Name) and tg.id == r.ast.value.id
-                                                      for s_ in stores for tg in s_.ast.targets)) or
-          (isinstance(r.ast.value, ast.Name) and any(isinstance(s_.ast.value, ast.Name) and s_.ast.value.id == r.ast.value.id for s_ in stores)))]
-        okc = bool(final)
-      init = repo.cls('carbon.aggregator.rules', 'AggregationRule').methods.get('__init__')
-      per_rule = init is not None and _fresh_cache_per_rule(cx, init)
       r_c = check.rule('R-C08-cache', 1, 'the name cache is per rule, keyed by the whole name, and stores what was computed')
-      if okc and per_rule:
-        r_c.ok('cache[metric_path] = result, one cache per rule', gam.loc(stores[0].ast))
-      else:
-        r_c.violate('name cache', gam, stores[0].ast if stores else None, 'the aggregate-name cache is not a per-rule mapping from the '
-                    'whole metric path to the computed result', construct='self.cache[metric_path] = result')
+      rule_name_cache(check, cx, r_c)
+
+
+def rule_name_cache(check, cx, r_c):
+  """the aggregate-name cache is per rule, keyed by the whole name, and stores what was computed (shared with C16: the
+  aggregation-aware router asks the same cached function which names feed which aggregate)."""
+  repo = check.repo
+  gam = repo.cls('carbon.aggregator.rules', 'AggregationRule').methods.get('get_aggregate_metric')
+  if gam is None:
+    r_c.cannot_decide('AggregationRule.get_aggregate_metric not found')
+    return
+  # per-rule cache keyed by the whole path, storing the computed result
+  g = cx.cfg(gam)
+  stores = [n for n in g.nodes if n.kind == 'stmt' and isinstance(n.ast, ast.Assign) and any(
+    isinstance(tg, ast.Subscript) and dotted(tg.value) == 'self.cache' for tg in n.ast.targets)]
+  rets = [n for n in g.nodes if n.kind == 'stmt' and isinstance(n.ast, ast.Return)]
+  def _key_store(s_):
+    for tg in s_.ast.targets:
+      if isinstance(tg, ast.Subscript) and dotted(tg.value) == 'self.cache':
+        return tg
+    return None
+  # self.cache[<whole path>] = <result> [= ...]; the result stored is the result returned
+  okc = bool(stores) and all(unparse(_key_store(s_).slice) == gam.params[1] for s_ in stores)
+  if okc:
+    vn_g = ValueNumbers(cx, gam)
+    stored = {vn_g.term(s_.ast.value, s_) for s_ in stores} | {
+      vn_g.term(tg, s_) for s_ in stores for tg in s_.ast.targets if isinstance(tg, ast.Name)}
+    final = [r for r in rets if r.ast.value is not None and (
+      vn_g.term(r.ast.value, r) in stored or
+      (isinstance(r.ast.value, ast.Name) and any(isinstance(tg, ast.Name) and tg.id == r.ast.value.id
+                                                  for s_ in stores for tg in s_.ast.targets)) or
+      (isinstance(r.ast.value, ast.Name) and any(isinstance(s_.ast.value, ast.Name) and s_.ast.value.id == r.ast.value.id for s_ in stores)))]
+    okc = bool(final)
+  init = repo.cls('carbon.aggregator.rules', 'AggregationRule').methods.get('__init__')
+  per_rule = init is not None and _fresh_cache_per_rule(cx, init)
+  if okc and per_rule:
+    r_c.ok('cache[metric_path] = result, one cache per rule', gam.loc(stores[0].ast))
+  else:
+    r_c.violate('name cache', gam, stores[0].ast if stores else None, 'the aggregate-name cache is not a per-rule mapping from the '
+                'whole metric path to the computed result', construct='self.cache[metric_path] = result')
 
 
 def rule_match_anchored(check, cx, rule):
